@@ -191,6 +191,13 @@ def check_title(title):
         shown = [" ".join(n.text().split()) for n in proot.iter() if n.tag == "title"]
         if pproblems or shown != [want]:
             out.append(("C10:page-title-text-differs", "stand-alone page: <title> shows %r, the title is %r" % (shown, want)))
+        # nothing of the title becomes an element: the page has the same elements as the page of a plain title
+        plain_doc = "# Plain title for 2\n\nText.\n"
+        (scratch / "plain.md").write_text(plain_doc, encoding="utf-8")
+        plain_root, _ = htmltok.tree(generate_standalone_page(scratch / "plain.md", embed_local_links=False))
+        if sorted(n.tag for n in proot.iter()) != sorted(n.tag for n in plain_root.iter()):
+            extra = sorted(set(n.tag for n in proot.iter()) ^ set(n.tag for n in plain_root.iter()))
+            out.append(("C10:element-structure-depends-on-text", "stand-alone page with title %r: elements differ from a plain title's page (%r)" % (mr.title, extra)))
         heads = [" ".join(n.text().split()) for n in proot.iter() if n.tag == "h1"]
         if len(heads) != 1 or not heads[0].startswith(want):
             out.append(("C10:page-title-text-differs", "stand-alone page: heading shows %r, the title is %r" % (heads, want)))
@@ -328,7 +335,9 @@ def oracle(run):
         run.violate(sig, detail, {"placeholder_replay": True})
     for title in ["Tom's \"best\" pie", "Fish & chips", "a > b", "x &amp; y", "50% rye #1", "back\\\\slash", "naïve café",
                   # plain text that looks like markup, a character reference or collapsible space once it has been read
-                  "I \\<3 pie \\> cake", "R&amp;amp;D loaf", "wide   gap", "1 \\< 2 and 3 \\> 2", "\\<b\\>bold\\</b\\> bun", "&amp;lt;tag&amp;gt; tart", "Q&A;"]:
+                  "I \\<3 pie \\> cake", "R&amp;amp;D loaf", "wide   gap", "1 \\< 2 and 3 \\> 2", "\\<b\\>bold\\</b\\> bun", "&amp;lt;tag&amp;gt; tart", "Q&A;",
+                  # text that would close the element it is printed in, were it printed unescaped (style sheet, script, title, comment)
+                  "x \\</style\\>\\<b\\>y\\</b\\>", "\\</title\\> z", "a --\\> b", "\\</script\\>", "quote \" and \\\\ in css"]:
         run.case(("title", title), True, kind="title")
         for sig, detail in check_title(title):
             run.violate(sig, detail, {"title": title})
